@@ -260,6 +260,11 @@ class Ctx:
                 return
         else:
             if exp["err"]:
+                # the model expected the call to fail, the code returned normally: the clause on a normal return still applies,
+                # judged from the code's own answers (the added key, and everything reported before, must be reported now)
+                if o[0] == "add":
+                    gone = [k for k in self.keys if (before["check"][k] or k == o[1]) and not (after["check"][k] and after["in"][k])]
+                    t.check(not gone, "C03", "C03.kept", ENGINE, lambda: rp2(missing=gone, note="add returned normally"), sig)
                 t.add_drift(ENGINE, {"cfg": c, "history": hist, "op": o, "choices": ch, "raised": None, "expected_err": True})
                 return
             out = fmap(exp["out"])
@@ -393,8 +398,16 @@ def profiles(tier, light=False, focus=None):
                           maxcap=2, maxdepth=5, maxout=1, nparts=8, er=0.003))
             P.append(dict(fp={"a": 1, "b": 2, "c": 3}, altvals=[0, 1], bs=8, ms=2, counting=counting, cap0s=[1], autos=[True],
                           maxcap=2, maxdepth=4, maxout=2, nparts=1, er=0.001))
+    # other expansion rates, incl. the degenerate rate 1 (the table is rebuilt at the same capacity: the expansion fails or reshuffles)
+    for counting in (False, True):
+        P.append(dict(fp={"a": 1, "b": 2, "c": 3}, altvals=[0, 1, 2], bs=1, ms=1, counting=counting, cap0s=[1], autos=[True, False], rate=3,
+                      maxcap=3, maxdepth=4, maxout=2, nparts=1))
+        P.append(dict(fp={"a": 1, "b": 2, "c": 3}, altvals=[0, 1], bs=1, ms=1, counting=counting, cap0s=[1, 2], autos=[True], rate=1,
+                      maxcap=2, maxdepth=4, maxout=2, nparts=1))
     if light and tier == "quick":
         P = [dict(p, altvals=p["altvals"][:2] if len(p["fp"]) > 3 and p["bs"] == 1 else p["altvals"]) for p in P]
+    if light and tier == "thorough":     # cross-cutting properties: the two smallest bucket sizes, one depth less
+        P = [dict(p, maxdepth=p["maxdepth"] - 1) for p in P if p["bs"] <= 2]
     # every HISTORY (no state merging, look-ups are operations) of the smallest tables: two keys share a fingerprint, a third maps to the
     # same first bucket with both candidates equal (its insertion must evict), buckets of one slot
     for counting in (False, True):
